@@ -271,6 +271,7 @@ func runLegacy(o *c.Out, k Case) {
 	}
 	o.Count(fmt.Sprintf("%s:len=%02d", k.Side, len(k.Remedies)))
 	o.Count(fmt.Sprintf("%s:non-noop=%d", k.Side, nonNoop))
+	countFmt(o, k.Side, k.Actions)
 	idx := o.Case(k.Side, coqLegacy(&k), k, nonNoop >= 2)
 	o.MonitorChecked(1)
 	for _, h := range monitor(o, &k) {
